@@ -25,6 +25,24 @@ def make_cases(tier, profile):
     cases.append(dict(name='QUIT + teardown (counters)', line='QUIT', then=['remove_user'], judges=['no_panic', 'inv'], spec=base))
     cases.append(dict(name='LUSERS after OPER', prelude=[('alice', 'OPER opname goodpw')], line='LUSERS', judges=['no_panic', 'lusers'], spec=dict(base, operators=ops)))
     cases.append(dict(name='LUSERS after MODE +i', prelude=[('alice', 'MODE alice +i')], line='LUSERS', judges=['no_panic', 'lusers'], spec=base))
+    # registration itself moves the counters (default modes +i / +O / +o count at once)
+    for dm in ({}, {'invisible': True}, {'local_oper': True}, {'invisible': True, 'wallops': True}):
+        cases.append(dict(name=f'USER completes registration (counters, default modes {sorted(dm)})', line='USER dave 0 * :Real', judges=['no_panic', 'inv'],
+                          spec=dict(base, default_user_modes=dm), conn=dict(registered=False, nick='dave')))
+    if tier != 'quick':
+        # every pair of counter mutators in sequence; four users; LUSERS / ISON after each mutator
+        muts = ['MODE alice +i', 'MODE alice -i', 'MODE alice -o', 'MODE alice -O', 'MODE alice +o', 'OPER opname goodpw', 'NICK zed', 'MODE alice +iw', 'AWAY :gone', 'JOIN #new']
+        big = dict(base, operators=ops, nicks=['alice', 'bob', 'carol', 'erin'])
+        for dmn, dm in (('', {}), (' (default +O)', {'local_oper': True})):
+            for m1 in muts:
+                for m2 in muts + ['LUSERS', 'QUIT']:
+                    actor2 = 'zed' if m1 == 'NICK zed' else 'alice'
+                    l2 = m2.replace('alice', actor2)
+                    kw = dict(then=['remove_user']) if m2 == 'QUIT' else {}
+                    cases.append(dict(name=f'{m1}; {l2}{dmn}', prelude=[('alice', m1)], line=l2, actor='alice', judges=['no_panic', 'inv'] + (['lusers'] if m2 == 'LUSERS' else []),
+                                      spec=dict(big, default_user_modes=dm), **kw))
+        for l in ['ISON bob erin zed', 'USERHOST erin bob', 'ISON ' + ' '.join(['bob', 'erin'] * 8)]:
+            cases.append(dict(name=l + ' [four users]', line=l, judges=['no_panic', 'ison'], spec=big))
     # connection slots
     cases.append(dict(name='register_conn_state', line='', call='register_conn', judges=['no_panic', 'conn_slots'], spec=base))
     cases.append(dict(name='Drop for ConnState', line='QUIT', then=['remove_user', 'drop_conn'], judges=['no_panic', 'slot_freed'], spec=base))
